@@ -56,6 +56,9 @@ type creds struct {
 	Authz      string // class of the Authorization header, see authzKinds
 	Session    string // none valid invalid remotefail
 	JWKS       string // ok fail
+	// Carrier: where a bearer token travels ("" = Authorization header; query, query-name-escaped: the documented query
+	// parameter access_token, the second with its name spelled with an escape sequence; form: the body parameter)
+	Carrier string
 }
 
 var authzKinds = []string{
@@ -429,6 +432,11 @@ func TestFallbackOnlyOnMissingCredentialsOrOptIn(t *testing.T) {
 			Authz:      rapid.SampledFrom(authzKinds).Draw(t, "authz"),
 			Session:    rapid.SampledFrom([]string{"none", "none", "valid", "invalid", "remotefail"}).Draw(t, "session"),
 			JWKS:       rapid.SampledFrom([]string{"ok", "ok", "ok", "fail"}).Draw(t, "jwks"),
+			Carrier:    rapid.SampledFrom([]string{"", "", "", "query", "query-name-escaped", "form"}).Draw(t, "carrier"),
+		}
+
+		if !strings.HasPrefix(c.Authz, "bearer-") || strings.Contains(c.Authz, "inner-space") {
+			c.Carrier = ""
 		}
 
 		conf := vkit.DefaultConf()
@@ -465,6 +473,8 @@ func TestFallbackOnlyOnMissingCredentialsOrOptIn(t *testing.T) {
 
 		lr := vkit.LogicalRequest{Method: "GET", Scheme: "http", Host: "svc.example.com", RawPath: "/x"}
 		if h, ok := authzHeader(c.Authz); ok {
+			token := strings.TrimPrefix(h, "Bearer ")
+
 			if scheme, rest, found := strings.Cut(h, " "); found {
 				switch c.SchemeCase {
 				case "lower":
@@ -474,7 +484,20 @@ func TestFallbackOnlyOnMissingCredentialsOrOptIn(t *testing.T) {
 				}
 			}
 
-			lr.Headers = append(lr.Headers, vkit.HeaderKV{Name: "Authorization", Value: h})
+			switch c.Carrier {
+			case "":
+				lr.Headers = append(lr.Headers, vkit.HeaderKV{Name: "Authorization", Value: h})
+			case "query":
+				lr.RawQuery = "page=2&access_token=" + url.QueryEscape(token)
+			case "query-name-escaped":
+				lr.RawQuery = rapid.SampledFrom([]string{"access%5Ftoken=", "%61ccess_token=", "access_toke%6e="}).Draw(t, "escapedName") + url.QueryEscape(token)
+			case "form":
+				lr.Method = "POST"
+				lr.Body = []byte("grant=x&access_token=" + url.QueryEscape(token))
+				lr.Headers = append(lr.Headers, vkit.HeaderKV{Name: "Content-Type", Value: "application/x-www-form-urlencoded"})
+			}
+
+			vkit.S.LabelIf(c.Carrier != "", "bearer_token_travels_in="+c.Carrier)
 		}
 
 		vkit.S.LabelIf(c.SchemeCase != "" && c.Authz != "none", "scheme_spelled_in_"+c.SchemeCase+"_case")
